@@ -11,7 +11,7 @@ def run_block(case, res):
     return {"graph": case["graph"], "cfg": runner.tla_cfg(case["cfg"]),
             "status": res["status"] if res["status"] in ("ok", "raise", "hang") else "harness",
             "parse": "ok" if sch["parse"] == "ok" else "error",
-            "shapes": [{"key": s["key"], "n": s["n"],
+            "shapes": [{"key": s["key"], "n": s["n"], "stem": s.get("stem", ""),
                         "tcs": [{"inv": t["inv"], "p": t["p"], "k": t["k"], "ks": t["ks"], "card": t["card"],
                                  "abs": t["abs"], "ratio": t["ratio"], "com": t["com"]} for t in s["tcs"]]}
                        for s in sch["shapes"]]}
@@ -210,7 +210,7 @@ def check_c13(out, tier):
     pipeline.l1(out, [("MC_Pair", "MC_C13_%s_%s.cfg" % (r, tier)) for r in ("relax", "noopt", "noexact", "or")])
     items = []
     for c in base_cases(rnd, 100 * k, "c13g", ors=False):
-        c = with_cfg(c, report="mixed", decimals=-1, comments=True)
+        c = with_cfg(c, report="mixed", decimals=-1, comments=True, minIri=rnd.random() < .35)     # (the IRI-stem node constraint is part of a shape)
         pres = rnd.choice([dict(report="abs"), dict(report="ratio"), dict(comments=False), dict(decimals=rnd.choice([0, 1, 2])),
                            dict(nsDict=gen.NSDICT), dict(nsDict=[[M.EX, ""], [M.XSD, "weso-s"]])])
         # (a custom shapes_namespace is a presentation option too: it leaves the references behind, known finding
